@@ -338,6 +338,58 @@ fn pure_cases(opts: &Opts, rep: &mut Report) {
     }
 }
 
+/// `Time::valid_now()` after a *history* of `valid_now()` calls on the same thread: validators built in
+/// quick succession for ~0.4 s, then a token that expired (or became valid) in the meantime. The
+/// instants are taken from the same system clock the library reads, with a margin of 200 ms.
+fn valid_now_history(opts: &Opts, rep: &mut Report) {
+    if opts.shard != 0 && opts.only.is_none() {
+        return;
+    }
+    for round in 0..2 {
+        let t0 = Timestamp::now();
+        let edge = t0 + Duration::from_millis(150);
+        let expiring = RegisteredClaims { exp: Some(edge), ..Default::default() };
+        let starting = RegisteredClaims { nbf: Some(edge), ..Default::default() };
+        // at the start: not expired yet / not yet valid (control)
+        let c0 = (Time::valid_now().validate(&expiring).is_ok(), Time::valid_now().validate(&starting).is_err());
+        let mut calls = 0u64;
+        while Timestamp::now() < t0 + Duration::from_millis(400) {
+            let v = Time::valid_now();
+            let _ = v.validate(&expiring);
+            if round == 1 {
+                let _ = Time::valid_now().with_leeway(Duration::from_millis(1)).validate(&starting);
+            }
+            calls += 1;
+            if calls % 50 == 0 {
+                std::thread::sleep(Duration::from_millis(1));
+            }
+        }
+        // the clock is now at least 250 ms past the edge
+        let late = Timestamp::now();
+        let d = |what: &str| json!({"what": what, "validators_built_in_between": calls, "edge": edge.to_string(), "clock_before": t0.to_string(), "clock_after": late.to_string()});
+        if late < edge + Duration::from_millis(200) {
+            rep.inconclusive("system clock did not advance as expected during the valid_now history");
+            continue;
+        }
+        match guard(|| (Time::valid_now().validate(&expiring), Time::valid_now().validate(&starting), Time::valid_now().with_leeway(Duration::from_millis(10)).validate(&expiring))) {
+            Ok((a, b, c)) => {
+                if a.is_ok() || c.is_ok() {
+                    rep.violation("C11|Time::valid_now|verdict-differs:accepts-invalid:after-history", d("a token that expired more than 200 ms ago is accepted by a validator built now"));
+                }
+                if b.is_err() {
+                    rep.violation("C11|Time::valid_now|verdict-differs:rejects-valid:after-history", d("a token whose nbf passed more than 200 ms ago is refused by a validator built now"));
+                }
+            }
+            Err(pn) => rep.violation("C11|Time::valid_now|panic", d(&pn)),
+        }
+        if c0 != (true, true) {
+            rep.count("valid-now-history.control-unexpected");
+        }
+        rep.case("valid-now-history", round as u64 + 1, true);
+        rep.sample_class("valid-now-history", 2, || d("validators built now use the current time"));
+    }
+}
+
 fn one_pure(rep: &mut Report, e: &Expr, c: &RegisteredClaims, class: &str) {
     let calls = Rc::new(Cell::new(0));
     let want = e.spec(c);
@@ -432,13 +484,14 @@ pub fn run(opts: &Opts) {
     let mut rep = Report::new("C11");
     if opts.wants_part("pure") {
         pure_cases(opts, &mut rep);
+        valid_now_history(opts, &mut rep);
     }
     if opts.wants_part("unseal") {
         for_backends!(opts, through_unseal, opts, &mut rep);
     }
     rep.set(
         "rule",
-        json!("(2b) related strings: expected vs claim strings that are extensions / truncations / repetitions of each other by every length 1..=600, both directions, all three string validators; (1) exhaustive boundary grid: exp, nbf in {absent, now, now+-1ns, now+-L, now+-L+-1ns, MIN, MAX} x now in {epoch, 2025, near jiff MIN, near jiff MAX} x L in {0, 1ns, 1s, 1h} with now+-L representable, for Time, TimeWithLeeway, HasExpiry; (2) issuer/subject/audience against absent/equal/prefix/case/empty/NUL variants; (3) random validator expressions to depth 3 over and_then, Vec, Box<[_]>, Box, Rc, Arc, map, NoValidation and scripted leaves, built as Box<dyn Validate>, on random claims with boundary timestamps; (4) map projections onto one of two claim sets; (5) verdicts pushed through real seal -> parse -> unseal(validator) on every backend and both purposes; oracle = formulas over i128 nanoseconds and recursive conjunction; distinct = distinct (validator expression, claims)"),
+        json!("valid-now history: hundreds of validators built with Time::valid_now() in quick succession on one thread for 0.4 s, then validators built now must use the current time (a token expired / became valid > 200 ms ago, instants from the same system clock); (2b) related strings: expected vs claim strings that are extensions / truncations / repetitions of each other by every length 1..=600, both directions, all three string validators; (1) exhaustive boundary grid: exp, nbf in {absent, now, now+-1ns, now+-L, now+-L+-1ns, MIN, MAX} x now in {epoch, 2025, near jiff MIN, near jiff MAX} x L in {0, 1ns, 1s, 1h} with now+-L representable, for Time, TimeWithLeeway, HasExpiry; (2) issuer/subject/audience against absent/equal/prefix/case/empty/NUL variants; (3) random validator expressions to depth 3 over and_then, Vec, Box<[_]>, Box, Rc, Arc, map, NoValidation and scripted leaves, built as Box<dyn Validate>, on random claims with boundary timestamps; (4) map projections onto one of two claim sets; (5) verdicts pushed through real seal -> parse -> unseal(validator) on every backend and both purposes; oracle = formulas over i128 nanoseconds and recursive conjunction; distinct = distinct (validator expression, claims)"),
     );
     rep.finish(opts);
 }
